@@ -225,6 +225,20 @@ def run_integrated(case):
                         elif dmg['kind'] == 'dir':
                             os.remove(p)
                             os.mkdir(p)
+                        elif dmg['kind'] == 'old-format':
+                            # file written by an older library version: no 'extended' key (not what this version stores:
+                            # it cannot be loaded entry-for-entry and must be treated as a miss)
+                            import json as _json
+                            try:
+                                doc = _json.loads(data.decode())
+                                for g_ in doc.values():
+                                    for e_ in g_.values():
+                                        e_.pop('extended', None)
+                                with open(p, 'w') as fh:
+                                    fh.write(_json.dumps(doc, indent=2))
+                                inside = True
+                            except Exception:  # noqa
+                                pass
                     before = _dirstate(d1)
                     if case['mode'] == 'ro':
                         cf, rec = cfharness.make_cf(env, ro_cache=d1)
@@ -274,7 +288,7 @@ def integrated_case(draw):
     t['needs_resending'] = False
     t['delays'] = [0.001]
     t['burst'] = []
-    kind = draw(st.sampled_from(['none', 'truncate', 'truncate', 'truncate', 'empty', 'dir']))
+    kind = draw(st.sampled_from(['none', 'truncate', 'truncate', 'truncate', 'empty', 'dir', 'old-format', 'old-format']))
     dmg = {'kind': kind}
     if kind == 'truncate':
         dmg['cut'] = draw(st.lists(st.integers(0, 4000), min_size=1, max_size=2))
